@@ -78,6 +78,11 @@ CLAIMS = {
             'set/get, exists/count/first/select, delete, add_segment/add_loop and copy are checked on real claim trees against serialisation-level frame conditions.',
             'Trusted: CrossHair, z3, the harness-side clone and serialisation. Real trees: the 2300 loops of two 837 test documents.',
             'DESIGN.md §5 C10'),
+    'C07': ('other', 'bounded symbolic execution (CrossHair+z3) of the reader on hostile line pairs and of the whole pipeline / context reader on structurally mutated documents (symbolic position)',
+            'Every ordered pair of hostile lines goes through the real reader; every catalogue mutation at every position of small real documents goes through x12n_document with all sinks '
+            '(and through the context reader): the only allowed outcomes are a boolean, Map-not-found, or the documented not-X12 refusal of a malformed ISA.',
+            'Trusted: CrossHair, z3. Documents are concrete, the symbolic inputs are positions and table choices (choice enumeration under the tracer - the weakest kind of obligation here).',
+            'DESIGN.md §5 C07'),
 }
 
 NOT_YET = 'check not built yet in this round (planned: see DESIGN.md §5)'
